@@ -25,7 +25,9 @@ type enumPos struct {
 	et   reflect.Type
 }
 
-func (p enumPos) id() string { return p.node.Info.Type.Name() + "." + p.f.GoName + ":" + p.kind + ":" + p.et.Name() }
+func (p enumPos) id() string {
+	return p.node.Info.Type.Name() + "." + p.f.GoName + ":" + p.kind + ":" + p.et.Name()
+}
 
 // enumTypesAt lists the generated enum types registered for a leaf.
 func enumTypesAt(root ygot.GoStruct, f *lib.FieldInfo) []reflect.Type {
